@@ -3,7 +3,7 @@
    generated in Gen/Source.v, on one axis given as (coordinate, value) pairs, compute what the
    hand-written models Arr/Index.v and Arr/CropExtend.v compute. pandas' get_slice_bound and xarray's
    label slice are the models' (Prelude glue). *)
-From Coq Require Import QArith ZArith List Bool.
+From Coq Require Import QArith ZArith List Bool Lqa.
 From SE Require Import Base.Num Base.Res Arr.Index Arr.CropExtend Gen.Prelude Gen.Source Gen.Tactics.
 Import ListNotations.
 Open Scope Q_scope.
@@ -22,7 +22,7 @@ Proof.
   assert (Hl : length (coords a) = length a) by apply map_length.
   rewrite <- Hl. clear Hl.
   destruct (coords a) as [|c cs]; [reflexivity|]. cbn [bind].
-  repeat (break_step; cbn [bind]); reflexivity.
+  repeat (break_step; cbn [bind negb andb orb]); try reflexivity; exfalso; q_hyps; try congruence; try discriminate; lra.
 Qed.
 
 Theorem src_crop_dim a start stop rc lc eps :
@@ -30,5 +30,5 @@ Theorem src_crop_dim a start stop rc lc eps :
 Proof.
   autounfold with src. unfold CropExtend.crop_dim, Index.get_dim_range, py_idx_min, py_idx_max, opt_default.
   destruct (coords a) as [|c cs]; [reflexivity|]. cbn [bind].
-  destruct start, stop, rc, lc; cbn [negb bind]; repeat (break_step; cbn [bind]); reflexivity.
+  destruct start, stop, rc, lc; cbn [negb bind]; repeat (break_step; cbn [bind negb andb orb]); try reflexivity; exfalso; q_hyps; try congruence; try discriminate; lra.
 Qed.
